@@ -28,7 +28,9 @@ KE == {"none", "lit", "sh"}
 K3 == {"none", "lit", "sh"}
 K2 == {"none", "lit"}
 
-VarCfgs == [k : {"var"}, loc : {"root", "inc"}, task : K5, call : K2, incfile : K3, incstmt : K2, global : K5, cli : K2, os : K2]
+\* via: how the task is reached from the entry task (a task: command, a dependency, a deferred task call) - the
+\* variables of the call site have the same rank in all three
+VarCfgs == [k : {"var"}, loc : {"root", "inc"}, via : {"cmd", "dep", "defer"}, task : K5, call : K2, incfile : K3, incstmt : K2, global : K5, cli : K2, os : K2]
 \* dotenv: which of the two listed files define E ("first" file wins)
 D4 == {"none", "first", "second", "both"}
 EnvCfgs == [k : {"env"}, tenv : KE, tdot : D4, genv : KE, gdot : D4, os : BOOLEAN, experiment : BOOLEAN]
@@ -56,8 +58,19 @@ EnvValue(c) ==
   IN IF c.experiment THEN (IF file # "" THEN file ELSE IF c.os THEN "os" ELSE "")
      ELSE (IF c.os THEN "os" ELSE file)
 
+\* a second Taskfile-level variable G2: '{{.N}}-g2', declared after N: it sees N as the global level leaves it.
+\* A NAME=value of the command line replaces the value of a declared global in place; a name that the Taskfile does
+\* not declare is appended after the declared ones, so G2 does not see it.  Nothing is stated ("?") when the include
+\* statement or the included Taskfile also define N (their definitions are merged into the root's, see KF-LOAD-24).
+Global2(c) ==
+  IF c.incfile # "none" \/ c.incstmt # "none" THEN "?"
+  ELSE LET v1 == Apply("", c.os, "os")
+           v2 == IF c.global = "none" THEN v1
+                 ELSE IF c.cli # "none" THEN Apply(v1, c.cli, "cli") ELSE Apply(v1, c.global, "global")
+       IN v2 \o "-g2"
+
 Init == /\ cfg \in VarCfgs \cup EnvCfgs
-        /\ exp = IF cfg.k = "var" THEN Value(cfg) ELSE EnvValue(cfg)
+        /\ exp = IF cfg.k = "var" THEN Value(cfg) \o "|" \o Global2(cfg) ELSE EnvValue(cfg)
 Next == FALSE /\ UNCHANGED <<cfg, exp>>
 Spec == Init /\ [][Next]_<<cfg, exp>>
 Emit == PrintT("CASE|" \o ToString([cfg |-> cfg, exp |-> exp]))
